@@ -494,7 +494,7 @@ impl G {
     fn shape(&mut self, d: usize, top: bool) -> Vec<Value> {
         let ints = self.vars_of(&tint());
         let cells = self.vars_of(&tmut(tint()));
-        match self.rng.below(if top { 18 } else { 13 }) {
+        match self.rng.below(if top { 26 } else { 13 }) {
             // a cell from the untyped / typed form with a literal, named or computed initial value
             0 => { let c = self.fresh("c"); let e = if self.rng.chance(1, 2) { int([0, 1, 10, -1][self.rng.below(4)]) } else { self.int_expr(1) };
                    let m = self.mut_int(e); self.declare(&c, tmut(tint())); vec![set(&c, m)] }
@@ -686,6 +686,84 @@ impl G {
                 self.declare(&i, tint());
                 vec![set(&i, json!({"k": "reduce", "it": it, "init": Self::asg("+=", var(&c), int(1)), "f": json!({"k": "fn",
                     "ps": [p("a", tint()), p("b", tint())], "r": tint(), "body": [Self::asg("+=", var(&c), var("b")), ret(bin("-", bin("*", var("a"), int(2)), var("b")))]})}))]
+            }
+            // ---- (top level) closures two levels deep over everything in scope, called twice
+            17 | 18 => {
+                let (mk, g, i) = (self.fresh("mk"), self.fresh("g"), self.fresh("i"));
+                let keep = self.env.len();
+                let saved = self.in_fn.replace(tint());
+                let e = self.int_expr(d.max(2));
+                self.in_fn = saved;
+                self.env.truncate(keep);
+                let ft = tfn(vec![], tint());
+                self.declare(&i, tint());
+                vec![json!({"k": "fndecl", "n": mk, "ps": [], "r": tfn(vec![], ft.clone()), "body": [
+                        ret(json!({"k": "fn", "ps": [], "r": ft, "body": [ret(json!({"k": "fn", "ps": [], "r": tint(), "body": [ret(e)]}))]}))]}),
+                     set(&g, call(call(var(&mk), vec![]), vec![])),
+                     set(&i, bin("+", call(var(&g), vec![]), call(var(&g), vec![])))]
+            }
+            // a block / branch ending in `()` after an effect, observed by a type test
+            19 if !cells.is_empty() => {
+                let c = self.pick(&cells);
+                let b = self.fresh("bv");
+                let (m1, m2) = (mark(self.next_mark()), mark(self.next_mark()));
+                vec![set(&b, block(vec![Self::asg("+=", var(&c), int(1)), unit()])),
+                     json!({"k": "ifset", "n": "q", "ty": tvoid(), "e": var(&b), "t": block(vec![m1]), "f": block(vec![m2])})]
+            }
+            // one cell repeated in an array: the elements are the cell
+            20 if !cells.is_empty() => {
+                let c = self.pick(&cells);
+                let (rp, i) = (self.fresh("rp"), self.fresh("i"));
+                self.declare(&i, tint());
+                vec![set(&rp, json!({"k": "rep", "v": var(&c), "len": int(3)})),
+                     Self::asg("+=", json!({"k": "at", "e": var(&rp), "i": int(1)}), int(2)),
+                     set(&i, bin("+", Self::deref(&c), json!({"k": "deref", "e": json!({"k": "at", "e": var(&rp), "i": int(2)})})))]
+            }
+            // a struct literal naming a field twice, with effects
+            21 if !cells.is_empty() => {
+                let c = self.pick(&cells);
+                let s = self.fresh("s");
+                self.declare(&s, tstruct(vec![("a", tint()), ("b", tint())]));
+                vec![set(&s, json!({"k": "struct", "fs": [["a", Self::asg("+=", var(&c), int(1))], ["b", Self::asg("*=", var(&c), int(2))], ["a", Self::asg("-=", var(&c), int(3))]]}))]
+            }
+            // a user variable named like the helper code's internals next to iterator operators
+            22 => {
+                let nm = ["default", "iterator", "func", "res", "con", "value", "array", "len", "mapper", "predicate"][self.rng.below(10)];
+                let i = self.fresh("i");
+                let src = hide(tarr(tmulti(vec![tint(), tstr()])), arr(vec![int(1), string("a"), int(2)]));
+                let pr = json!({"k": "fn", "ps": [p("q", tint())], "r": tbool(), "body": [ret(bin(">", var("q"), int(0)))]});
+                let mp = json!({"k": "fn", "ps": [p("q", tint())], "r": tint(), "body": [ret(bin("+", var("q"), int(1)))]});
+                let it = json!({"k": "map", "it": json!({"k": "filter", "it": json!({"k": "tfilter", "it": json!({"k": "iter", "e": src}), "ty": tint()}), "f": pr}), "f": mp});
+                self.declare(nm, tint());
+                self.declare(&i, tint());
+                vec![set(nm, hide(tint(), int(70))), set(&i, bin("+", json!({"k": "red", "op": "$+", "ek": "int", "it": it}), var(nm)))]
+            }
+            // for over a mapped iterator whose body reads names the helper code also uses
+            23 => {
+                let (s, r) = (self.fresh("c"), "res");
+                self.declare(&s, tmut(tint()));
+                let mp = json!({"k": "fn", "ps": [p("q", tint())], "r": tint(), "body": [ret(bin("*", var("q"), int(2)))]});
+                vec![set(r, hide(tint(), int(100))), set(&s, json!({"k": "mut", "ty": tint(), "e": int(0)})),
+                     json!({"k": "for", "n": "e", "e": json!({"k": "map", "it": json!({"k": "iter", "e": arr(vec![int(1), int(2)])}), "f": mp}),
+                            "b": block(vec![Self::asg("+=", var(&s), bin("+", var("e"), var(r)))])})]
+            }
+            // match on a constant with value arms that are only known at run time
+            24 if !ints.is_empty() => {
+                let v = self.pick(&ints);
+                let (m1, m2, m3) = (mark(self.next_mark()), mark(self.next_mark()), mark(self.next_mark()));
+                let k = int([0, 1, 2, 3][self.rng.below(4)]);
+                vec![json!({"k": "match", "e": k, "arms": [
+                    {"k": "val", "vs": [var(&v)], "b": block(vec![m1])},
+                    {"k": "val", "vs": [int(1), int(2)], "b": block(vec![m2])},
+                    {"k": "other", "b": block(vec![m3])}]})]
+            }
+            // a guard whose excluded branch would fail
+            25 if !ints.is_empty() => {
+                let v = self.pick(&ints);
+                let i = self.fresh("i");
+                self.declare(&i, tint());
+                let op = ["/", "%"][self.rng.below(2)];
+                vec![set(&i, json!({"k": "if", "c": bin("!=", var(&v), int(0)), "t": block(vec![bin(op, int(12), var(&v))]), "f": block(vec![int(-1)])}))]
             }
             _ => vec![mark(self.next_mark())],
         }
